@@ -30,9 +30,17 @@ package data_model
 // (Y = 1[kept] - 1/SF_r, variance (1/SF_r)(1 - 1/SF_r), |Y| <= 1); rows are independent given the
 // roundings because selectRandom draws one uniform number per row.
 //
-// delta = 1e-15 per test. A case runs at most 2*rows + 2*leaves + 4 <= ~1700 tests; a thorough run
-// of 1e5 cases therefore has a false-alarm probability below 2e-7 (union bound), a quick run below
-// 1e-9. The number of tests performed is reported in the evidence ("bernstein-tests").
+// Received values: every kept row additionally goes through the agent's real keepF conversion with its
+// factor (TLMultiItemFromKey, MultiValueToTL(SF), WriteTL1 -> ReadTL1, MergeWithTL2 into an empty row;
+// memoised per row and factor, the conversion is deterministic). With R = received count (sum,
+// sumsquare) if kept and 0 if discarded and T = the true value (exact small integers: counter-only rows,
+// one value, identical values plus counter-only weight, two different values), the statement says
+// E R = T; under H0 R - T = T*(X - 1), so the same bound applies scaled by |T|: |sum (R - T)| <= |T| t*.
+// A row kept with factor 1 must arrive exactly.
+//
+// delta = 1e-15 per test. A case runs at most 5*rows + 2*leaves + 7 <= ~2900 tests; a thorough run
+// of 1e4 cases therefore has a false-alarm probability below 3e-8 (union bound), a quick run below
+// 2e-9. The number of tests performed is reported in the evidence ("bernstein-tests").
 // Idealisations: the generator's outputs for different seeds are treated as independent uniform
 // numbers; r.Float64()*sf < 1 is treated as probability exactly 1/sf (error < 2^-52).
 //
@@ -142,6 +150,13 @@ func c05Prop(t vpT, c c05Case) (nontrivial bool, classes []string, tests int) {
 	}
 	fitsAll = fitsAll && restSize <= s.Budget
 	rows := make([]c05Acc, len(s.Rows))
+	truth := make([]vpsampTruth, len(s.Rows))
+	recvCache := make([]map[float64]vpsampTruth, len(s.Rows))
+	recvDev := make([][3]float64, len(s.Rows)) // sum over runs of received - true: count, sum, sumsquare
+	for i := range s.Rows {
+		truth[i] = s.Rows[i].truth()
+	}
+	sawIdentExtra := false
 	sawWhale, sawSampled, sawBigSF, sawNoSample := false, false, false, false
 	for r := 0; r < c.N; r++ {
 		seed := c05Mix(c.Seed, r)
@@ -182,6 +197,35 @@ func c05Prop(t vpT, c c05Case) (nontrivial bool, classes []string, tests int) {
 				sawBigSF = true
 			}
 			rows[i].add(o.Keep == 1, o.SF, row.Whale+1)
+			tr := truth[i]
+			if o.Keep != 1 {
+				recvDev[i][0] -= tr.Count
+				recvDev[i][1] -= tr.Sum
+				recvDev[i][2] -= tr.SumSq
+				continue
+			}
+			rc, ok := recvCache[i][o.SF]
+			if !ok {
+				rc = h.received(t, i, o.SF)
+				if recvCache[i] == nil {
+					recvCache[i] = map[float64]vpsampTruth{}
+				}
+				if len(recvCache[i]) < 64 {
+					recvCache[i][o.SF] = rc
+				}
+			}
+			if rc.ValueSet != tr.ValueSet {
+				t.Fatalf("run %d (seed %d): row %d (shape %d) sent with factor %v arrives with ValueSet=%v", r, seed, i, row.Shape, o.SF, rc.ValueSet)
+			}
+			if o.SF == 1 && (rc.Count != tr.Count || rc.Sum != tr.Sum || rc.SumSq != tr.SumSq) {
+				t.Fatalf("run %d (seed %d): row %d (shape %d) kept with factor 1 arrives as count %v sum %v sumsquare %v, true %v %v %v", r, seed, i, row.Shape, rc.Count, rc.Sum, rc.SumSq, tr.Count, tr.Sum, tr.SumSq)
+			}
+			recvDev[i][0] += rc.Count - tr.Count
+			recvDev[i][1] += rc.Sum - tr.Sum
+			recvDev[i][2] += rc.SumSq - tr.SumSq
+			if row.Shape == vpsampShapeIdentical && o.SF > 1 {
+				sawIdentExtra = true
+			}
 		}
 		for _, sf := range h.SFs {
 			if v := float64(sf.Value); math.IsInf(v, 0) || math.IsNaN(v) {
@@ -220,12 +264,36 @@ func c05Prop(t vpT, c c05Case) (nontrivial bool, classes []string, tests int) {
 				what, c.N, n/c.N, sum, sum/float64(n), bound, v, m, c.Seed)
 		}
 	}
+	checkScaled := func(what string, dev, scale, v, m float64, n int) {
+		tests++
+		if math.IsInf(v, 0) || math.IsNaN(v) || math.IsNaN(dev) {
+			t.Fatalf("%s: not finite (dev %v, V %v)", what, dev, v)
+		}
+		bound := scale*c05Bound(v, m) + 1e-9*scale*float64(n) // + float rounding of received values
+		if v == 0 {
+			bound = 1e-9 * scale * float64(n)
+		}
+		if math.Abs(dev) > bound {
+			t.Fatalf("%s: received minus true summed over %d runs = %.6g (%.4g of the true value per run), Bernstein bound at delta=1e-15 is %.6g (true value %v, V=%.6g M=%.6g); base seed %d",
+				what, c.N, dev, dev/scale/float64(c.N), bound, scale, v, m, c.Seed)
+		}
+	}
+	stat := [3]string{"count", "sum", "sumsquare"}
 	var all c05Acc
+	var allDev, allV, allM [3]float64
 	for i := range rows {
 		if s.Rows[i].Size < 1 {
 			continue
 		}
 		a := &rows[i]
+		for k, tv := range [3]float64{truth[i].Count, truth[i].Sum, truth[i].SumSq} {
+			sc := math.Abs(tv)
+			checkScaled("E[received "+stat[k]+"]=true "+stat[k]+" of row "+vpsampItoa(int64(i))+" (shape "+vpsampItoa(int64(s.Rows[i].Shape))+", metric "+vpsampItoa(int64(s.Metrics[s.Rows[i].M].ID))+")",
+				recvDev[i][k], sc, a.v, a.m, a.n)
+			allDev[k] += recvDev[i][k]
+			allV[k] += sc * sc * a.v
+			allM[k] = math.Max(allM[k], sc*a.m)
+		}
 		check("E[kept*SF]=1 of row "+vpsampItoa(int64(i))+" (metric "+vpsampItoa(int64(s.Metrics[s.Rows[i].M].ID))+")", a.s, a.v, a.m, a.n)
 		check("P(keep)=1/SF of row "+vpsampItoa(int64(i)), a.ks, a.kv, 1, a.n)
 	}
@@ -241,6 +309,12 @@ func c05Prop(t vpT, c c05Case) (nontrivial bool, classes []string, tests int) {
 	check("E[kept*SF]=1 over the bucket", all.s, all.v, all.m, all.n)
 	check("P(keep)=1/SF over the bucket", all.ks, all.kv, 1, all.n)
 	check("count-weighted E[kept*SF*count]=count over the bucket", all.ws, all.wv, all.wm, all.n)
+	for k := range stat {
+		checkScaled("E[received "+stat[k]+"]=true "+stat[k]+" over the bucket", allDev[k], 1, allV[k], allM[k], all.n)
+	}
+	if sawIdentExtra {
+		classes = append(classes, "kept-identical-values-extra-count")
+	}
 
 	if sawSampled {
 		classes = append(classes, "sampled-leaf")
